@@ -313,6 +313,15 @@ pub enum Op {
     SearchVec { q: Vec<f32>, k: usize },
     /// engine 2 (C05): an operation on the embedded WAL itself
     Wal(crate::walsim::WalOp),
+    /// C17, second actor ("another process"): a writable Memvid::open of the same path through an
+    /// independent open file description, attempted while the first handle may be alive
+    Open2,
+    /// C17, third party: raw flock(LOCK_EX|LOCK_NB) on a fresh descriptor of the path
+    LockProbe,
+    /// C17, second actor: Memvid::doctor on the path while the first handle may be alive
+    Doctor2,
+    /// the public downgrade_to_shared() on the live handle (it upgrades again on the next mutation)
+    Downgrade,
 }
 
 impl Op {
@@ -347,6 +356,10 @@ impl Op {
             Op::Timeline(_) => "timeline",
             Op::SearchVec { .. } => "search_vec",
             Op::Wal(_) => "wal",
+            Op::Open2 => "open2",
+            Op::LockProbe => "lock_probe",
+            Op::Doctor2 => "doctor2",
+            Op::Downgrade => "downgrade",
         }
     }
     pub fn is_mutation(&self) -> bool {
@@ -378,6 +391,9 @@ pub struct Scenario {
     /// explicit post step (replay / minimisation): evaluate exactly this crash point
     #[serde(default)]
     pub post: Option<crate::crash::CrashPoint>,
+    /// explicit medium fault applied to the closed file (replay / minimisation)
+    #[serde(default)]
+    pub medium: Option<crate::corrupt::Medium>,
     /// free-form knobs of the check that produced the scenario
     #[serde(default)]
     pub knobs: std::collections::BTreeMap<String, i64>,
